@@ -1,7 +1,7 @@
 SPECIFICATION MSpec
 CONSTANTS
-  Accts = {"eoa", "fwd", "dbl"}
-  Paths = {"direct", "forward", "delegatecall", "lookalike", "fwdrevert"}
+  Accts = {"eoa", "fwd", "dbl", "mix"}
+  Paths = {"direct", "forward", "delegatecall", "lookalike", "fwdrevert", "mixed"}
   Ops = {"delegate", "undelegate", "withdraw", "vote", "redelegate", "votew"}
   Amts = {0, 1, 2, 9}
   Vals = {"valid", "second", "unknown"}
